@@ -1,7 +1,7 @@
 // c16: time-based connections.  An apifu.API with one TimeBasedConnection field whose EdgeGetter is
 // backed by a generated data set and honours (minTime, maxTime, limit) exactly; every request goes
 // through API.ServeGraphQL.  Observed per request: the returned edges (node and cursor), the page
-// info, and the (min, max, limit) triples the getter received.
+// info, the (min, max, limit) triples the getter received and what it answered to each.
 //
 // The real code runs in a worker subprocess (this binary re-executed with C16_WORKER=1): a panic
 // inside a goroutine started by apifu.Go cannot be recovered and kills the process (DESIGN §6 row
@@ -70,6 +70,7 @@ type workResp struct {
 	Status  int
 	Body    string
 	Triples [][3]string // min, max (nanoseconds since the epoch, decimal), limit
+	Returns [][]edge    // what the getter answered to each call, in the order it returned the edges
 }
 
 // zbig writes an integer of any size.  (internal/sexp prints values below 2^61 in decimal, but the
@@ -101,6 +102,7 @@ type workerState struct {
 	req     *workReq
 	calls   int
 	triples [][3]string
+	returns [][]edge
 }
 
 func newAPI(st *workerState) *apifu.API {
@@ -131,6 +133,7 @@ func newAPI(st *workerState) *apifu.API {
 					ret[a], ret[b] = ret[b], ret[a]
 				}
 			}
+			st.returns = append(st.returns, append([]edge{}, ret...))
 			p := presT{}
 			if i < len(st.req.Pres) {
 				p = st.req.Pres[i]
@@ -184,13 +187,13 @@ func workerMain() {
 				fmt.Fprintln(os.Stderr, "worker: bad request:", e)
 				os.Exit(3)
 			}
-			st.req, st.calls, st.triples = &req, 0, nil
+			st.req, st.calls, st.triples, st.returns = &req, 0, nil, nil
 			body, _ := json.Marshal(map[string]interface{}{"query": req.Query})
 			hr := httptest.NewRequest("POST", "/graphql", bytes.NewReader(body))
 			hr.Header.Set("Content-Type", "application/json")
 			w := httptest.NewRecorder()
 			api.ServeGraphQL(w, hr)
-			resp, _ := json.Marshal(workResp{Status: w.Code, Body: w.Body.String(), Triples: st.triples})
+			resp, _ := json.Marshal(workResp{Status: w.Code, Body: w.Body.String(), Triples: st.triples, Returns: st.returns})
 			out.Write(resp)
 			out.WriteByte('\n')
 			out.Flush()
@@ -509,11 +512,15 @@ func (e *env) step(a argSpec, ps []presT) (obsT, sexp.Node) {
 		on = sexp.T("skipped-after-hangs")
 	}
 	var ts []sexp.Node
-	for _, t := range resp.Triples {
+	for i, t := range resp.Triples {
 		mn, _ := new(big.Int).SetString(t[0], 10)
 		mx, _ := new(big.Int).SetString(t[1], 10)
 		lim, _ := new(big.Int).SetString(t[2], 10)
-		ts = append(ts, sexp.L(zbig(mn), zbig(mx), zbig(lim)))
+		var ret []sexp.Node
+		for _, x := range resp.Returns[i] {
+			ret = append(ret, edgeNode(x.Nano, x.Id))
+		}
+		ts = append(ts, sexp.L(zbig(mn), zbig(mx), zbig(lim), sexp.L(ret...)))
 	}
 	return o, sexp.T("step", a.sexp(), sexp.T("info", sexp.Bool(a.Info)), sexp.T("pres", presSexp(ps)),
 		sexp.T("obs", on), sexp.T("triples", sexp.L(ts...)))
